@@ -3,7 +3,7 @@
    entry word / key / payload it is meant to, for every shape and size. *)
 From Coq Require Import List NArith ZArith Bool Lia.
 Import ListNotations.
-From JB Require Import Constants Bytes Utf8 Num Value Codec TreeOps JsonText Dispatch CodecProofs RoundtripProofs DispatchProofs Walk.
+From JB Require Import Constants Bytes Utf8 Num Value Codec TreeOps JsonText Dispatch CodecProofs RoundtripProofs DispatchProofs Walk I32.
 Open Scope N_scope.
 Set Default Timeout 120.
 
@@ -58,7 +58,7 @@ Lemma jbi_loop_words A ws B pre x post : words_ok ws -> ws = pre ++ x :: post ->
   = Some (x, voff + sum_je_len todo).
 Proof.
   intros Hok Hws. induction todo as [|t todo IH]; intros done Hpre fuel voff Hf;
-    (destruct fuel as [|fuel]; [cbn [length] in Hf; lia|]); cbn [jbi_loop].
+    (destruct fuel as [|fuel]; [cbn [length] in Hf; lia|]); cbn [jbi_loop]; unfold JBI_ADVANCE, JBI_JSTEP.
   - rewrite app_nil_r in Hpre. subst done.
     assert (L : lenN pre <? lenN ws = true) by (apply N.ltb_lt; rewrite Hws, lenN_app, lenN_cons; lia).
     rewrite L. rewrite (read_word_at A ws B pre x post _ Hok Hws eq_refl).
@@ -149,7 +149,7 @@ Lemma jentry_by_index_arr A l B i : Forall (fun v => wf_size v = true) l -> lenN
     end.
 Proof.
   intros Hl Hn. destruct (arr_hdr_facts l Hn) as (_ & _ & HL).
-  unfold get_jentry_by_index_w. rewrite HL.
+  unfold get_jentry_by_index_w, JBI_REJECT, JBI_JOFF, JBI_VOFF. rewrite HL.
   destruct (lenN l <=? i) eqn:E.
   - apply N.leb_le in E. assert (Hnone : nth_opt l (N.to_nat i) = None).
     { assert (length l <= N.to_nat i)%nat by (unfold lenN in E; lia). revert H. generalize (N.to_nat i). clear.
@@ -264,7 +264,7 @@ Lemma values_loop_arr A l B : Forall (fun v => wf_size v = true) l ->
   = Ok (Some (map enc todo)).
 Proof.
   intros Hl. induction todo as [|t todo IH]; intros done El fuel Hf;
-    (destruct fuel as [|fuel]; [cbn [length] in Hf; lia|]); cbn [values_loop].
+    (destruct fuel as [|fuel]; [cbn [length] in Hf; lia|]); cbn [values_loop]; unfold AVS_JSTEP.
   - rewrite app_nil_r in El. subst done. rewrite N.ltb_irrefl. reflexivity.
   - assert (L : lenN done <? lenN l = true) by (apply N.ltb_lt; rewrite El, lenN_app, lenN_cons; lia).
     rewrite L.
@@ -418,7 +418,7 @@ Lemma name_loop_obj A o B name ic : obj_ok o ->
             (loc_of (lenN A + 8 * lenN o + 4 + sum_keys o) result)
   = Ok (loc_of (lenN A + 8 * lenN o + 4 + sum_keys o) (find_member name ic todo (vals done) result)).
 Proof.
-  intros Ho. induction todo as [|[k x] todo IH]; intros done result Eo; cbn [kws map name_loop find_member]; [reflexivity|].
+  intros Ho. induction todo as [|[k x] todo IH]; intros done result Eo; cbn [kws map name_loop find_member]; [reflexivity|]. unfold JBN_JSTEP2.
   fold (kws todo).
   assert (Hkx : wf_size x = true /\ lenN k < 268435456).
   { unfold obj_ok in Ho. rewrite Eo in Ho. apply Forall_app in Ho. destruct Ho as [_ Ho]. inversion Ho as [|? ? Hh ?]. exact Hh. }
@@ -495,7 +495,7 @@ Lemma name_then_extract A o B name ic : obj_ok o -> lenN o < 536870912 ->
    opt_extract (A ++ payload (VObj o) ++ B) r)
   = Ok (option_map enc (get_by_name_t (VObj o) name ic)).
 Proof.
-  intros Ho Hn. unfold get_jentry_by_name_w. destruct (obj_hdr_facts o Hn) as (_ & _ & HL). rewrite HL.
+  intros Ho Hn. unfold get_jentry_by_name_w, JBN_JOFF, JBN_KOFF, JBN_VOFF, JBN_JSTEP1. destruct (obj_hdr_facts o Hn) as (_ & _ & HL). rewrite HL.
   rewrite (rd_key_words A o B _ Ho).
   2:{ rewrite !app_length, payload_obj, !app_length, length_flat_words, app_length. unfold kws. rewrite map_length. lia. }
   rewrite (sum_je_len_kws o Ho).
@@ -542,7 +542,7 @@ Lemma name_loc A o B name : obj_ok o -> lenN o < 536870912 ->
                  + sum_len (match find_member name false o [] None with Some bx => fst bx | None => [] end) /\
        wf_size x = true /\ In x (vals o)).
 Proof.
-  intros Ho Hn. unfold get_jentry_by_name_w. destruct (obj_hdr_facts o Hn) as (_ & _ & HL). rewrite HL.
+  intros Ho Hn. unfold get_jentry_by_name_w, JBN_JOFF, JBN_KOFF, JBN_VOFF, JBN_JSTEP1. destruct (obj_hdr_facts o Hn) as (_ & _ & HL). rewrite HL.
   rewrite (rd_key_words A o B _ Ho).
   2:{ rewrite !app_length, payload_obj, !app_length, length_flat_words, app_length. unfold kws. rewrite map_length. lia. }
   rewrite (sum_je_len_kws o Ho).
@@ -618,6 +618,8 @@ Proof.
            |change (ARRAY_CONTAINER_TAG =? OBJECT_CONTAINER_TAG) with false; reflexivity].
         rewrite N.eqb_refl.
         replace (Z.of_N (lenN l)) with (lenZ l) by (unfold lenZ, lenN; rewrite nat_N_Z; reflexivity).
+        (* the generated guard / index expressions of both branches, in their reference form (I32.v) *)
+        rewrite GBK_T_REJECT_spec, GBK_B_REJECT_spec, GBK_T_INDEX_spec, GBK_B_INDEX_spec.
         destruct ((lenZ l <? i) || (lenZ l + i <? 0))%Z eqn:Eg; [reflexivity|].
         apply orb_false_iff in Eg. destruct Eg as [Eg1 Eg2]. apply Z.ltb_ge in Eg1. apply Z.ltb_ge in Eg2.
         set (z := (if (0 <=? i)%Z then i else lenZ l + i)%Z).
@@ -693,7 +695,7 @@ Lemma object_keys_b_obj o : wfb (VObj o) = true ->
 Proof.
   intros Hwf. destruct (obj_ok_of_wf o Hwf) as [Ho Hn].
   assert (Ebs : enc (VObj o) = [] ++ payload (VObj o) ++ []) by (rewrite app_nil_r; reflexivity).
-  unfold object_keys_b. rewrite Ebs. change 0 with (lenN (@nil N)) at 1. rewrite (read_hdr_obj [] o [] Hn).
+  unfold object_keys_b, OKS_JOFF, OKS_PREV_KOFF. rewrite Ebs. change 0 with (lenN (@nil N)) at 1. rewrite (read_hdr_obj [] o [] Hn).
   destruct (obj_hdr_facts o Hn) as (_ & -> & ->). rewrite N.eqb_refl.
   change 4 with (lenN (@nil N) + 4) at 1. rewrite (rd_key_words [] o [] _ Ho).
   2:{ rewrite !app_length, payload_obj, !app_length, length_flat_words, app_length. unfold kws. rewrite map_length. lia. }
@@ -750,8 +752,9 @@ Lemma object_each_b_obj o : wfb (VObj o) = true ->
 Proof.
   intros Hwf. destruct (obj_ok_of_wf o Hwf) as [Ho Hn].
   assert (Ebs : enc (VObj o) = [] ++ payload (VObj o) ++ []) by (rewrite app_nil_r; reflexivity).
-  unfold object_each_b. rewrite Ebs. change 0 with (lenN (@nil N)) at 1. rewrite (read_hdr_obj [] o [] Hn).
+  unfold object_each_b, OEA_WORDS, OEA_OFF0, OEA_STEP. rewrite Ebs. change 0 with (lenN (@nil N)) at 1. rewrite (read_hdr_obj [] o [] Hn).
   destruct (obj_hdr_facts o Hn) as (_ & -> & ->). rewrite N.eqb_refl.
+  replace (lenN o * 2) with (2 * lenN o) by lia.
   assert (R : rd_words (S (length ([] ++ payload (VObj o) ++ []))) ([] ++ payload (VObj o) ++ []) 0 (2 * lenN o) 4 = Some (kws o ++ vws o)).
   { rewrite obj_regroup.
     pose proof (rd_words_words ([] ++ be32 (obj_hdr o)) (kws o ++ vws o) (keys_bytes o ++ flat_map payload (vals o) ++ [])
@@ -767,7 +770,7 @@ Proof.
   rewrite F1, F2.
   pose proof (each_keys_obj [] o [] Ho o [] eq_refl) as K. change (sum_keys []) with 0 in K.
   rewrite lenN_nil, N.add_0_l, !N.add_0_r in K.
-  replace (4 + 8 * lenN o) with (8 * lenN o + 4) by lia. rewrite K. cbn [bind].
+  replace (4 + 4 * (2 * lenN o)) with (8 * lenN o + 4) by lia. rewrite K. cbn [bind].
   pose proof (each_vals_obj [] o [] Ho o [] eq_refl) as V. cbn [vals map sum_len fold_right] in V.
   rewrite lenN_nil, N.add_0_l, N.add_0_r in V. fold (sum_keys o). rewrite V. reflexivity.
 Qed.
@@ -821,8 +824,8 @@ Qed.
   Theorem object_keys_w_enc v : wfb v = true -> top_ok v -> object_keys_w (enc v) = Ok (option_map enc (object_keys_t v)).
   Proof.
     intros Hwf Htop. pose proof (is_jsonb_enc v Hwf Htop) as Hj.
-    unfold object_keys_w. rewrite Hj. clear Hj Htop. destruct v as [|b|s|n|l|o]; try (unfold object_keys_b; rewrite scalar_hdr by reflexivity; reflexivity).
-    - destruct (wf_arr l Hwf) as [_ Hn]. unfold object_keys_b.
+    unfold object_keys_w. rewrite Hj. clear Hj Htop. destruct v as [|b|s|n|l|o]; try (unfold object_keys_b, OKS_JOFF, OKS_PREV_KOFF; rewrite scalar_hdr by reflexivity; reflexivity).
+    - destruct (wf_arr l Hwf) as [_ Hn]. unfold object_keys_b, OKS_JOFF, OKS_PREV_KOFF.
       assert (Ebs : enc (VArr l) = [] ++ payload (VArr l) ++ []) by (rewrite app_nil_r; reflexivity).
       rewrite Ebs. change 0 with (lenN (@nil N)). rewrite (read_hdr_arr [] l [] Hn).
       destruct (arr_hdr_facts l Hn) as (_ & -> & _). reflexivity.
@@ -833,8 +836,8 @@ Qed.
     object_each_w (enc v) = Ok (option_map (map (fun kv => (fst kv, enc (snd kv)))) (object_each_t v)).
   Proof.
     intros Hwf Htop. pose proof (is_jsonb_enc v Hwf Htop) as Hj.
-    unfold object_each_w. rewrite Hj. clear Hj Htop. destruct v as [|b|s|n|l|o]; try (unfold object_each_b; rewrite scalar_hdr by reflexivity; reflexivity).
-    - destruct (wf_arr l Hwf) as [_ Hn]. unfold object_each_b.
+    unfold object_each_w. rewrite Hj. clear Hj Htop. destruct v as [|b|s|n|l|o]; try (unfold object_each_b, OEA_WORDS, OEA_OFF0, OEA_STEP; rewrite scalar_hdr by reflexivity; reflexivity).
+    - destruct (wf_arr l Hwf) as [_ Hn]. unfold object_each_b, OEA_WORDS, OEA_OFF0, OEA_STEP.
       assert (Ebs : enc (VArr l) = [] ++ payload (VArr l) ++ []) by (rewrite app_nil_r; reflexivity).
       rewrite Ebs. change 0 with (lenN (@nil N)). rewrite (read_hdr_arr [] l [] Hn).
       destruct (arr_hdr_facts l Hn) as (_ & -> & _). reflexivity.
@@ -844,17 +847,17 @@ Qed.
   Theorem array_values_w_enc v : wfb v = true -> top_ok v -> array_values_w (enc v) = Ok (option_map (map enc) (array_values_t v)).
   Proof.
     intros Hwf Htop. pose proof (is_jsonb_enc v Hwf Htop) as Hj.
-    unfold array_values_w. rewrite Hj. clear Hj Htop. destruct v as [|b|s|n|l|o]; try (unfold array_values_b; rewrite scalar_hdr by reflexivity; reflexivity).
+    unfold array_values_w. rewrite Hj. clear Hj Htop. destruct v as [|b|s|n|l|o]; try (unfold array_values_b, AVS_JOFF, AVS_VOFF; rewrite scalar_hdr by reflexivity; reflexivity).
     - destruct (wf_arr l Hwf) as [Hall Hn].
       assert (Hl : Forall (fun x => wf_size x = true) l) by (eapply Forall_impl; [|exact Hall]; intros x; apply wfb_size).
-      unfold array_values_b.
+      unfold array_values_b, AVS_JOFF, AVS_VOFF.
       assert (Ebs : enc (VArr l) = [] ++ payload (VArr l) ++ []) by (rewrite app_nil_r; reflexivity).
       rewrite Ebs. change 0 with (lenN (@nil N)) at 1. rewrite (read_hdr_arr [] l [] Hn).
       destruct (arr_hdr_facts l Hn) as (_ & -> & ->). rewrite N.eqb_refl.
       pose proof (values_loop_arr [] l [] Hl l [] eq_refl (S (length ([] ++ payload (VArr l) ++ [])))) as V.
       cbn [sum_len fold_right] in V. rewrite lenN_nil, N.mul_0_r, !N.add_0_r, !N.add_0_l in V. apply V.
       rewrite !app_length, payload_arr, !app_length, length_flat_words, map_length. lia.
-    - destruct (obj_ok_of_wf o Hwf) as [Ho Hn]. unfold array_values_b.
+    - destruct (obj_ok_of_wf o Hwf) as [Ho Hn]. unfold array_values_b, AVS_JOFF, AVS_VOFF.
       assert (Ebs : enc (VObj o) = [] ++ payload (VObj o) ++ []) by (rewrite app_nil_r; reflexivity).
       rewrite Ebs. change 0 with (lenN (@nil N)). rewrite (read_hdr_obj [] o [] Hn).
       destruct (obj_hdr_facts o Hn) as (_ & -> & _). reflexivity.
